@@ -1,5 +1,7 @@
 """C06  `stop` is never lost and always produces a prompt `bestmove`; stop signalling is race-free; isready is answered."""
 import concurrent.futures
+import os
+import shutil
 import time as _time
 import gen
 import layout
@@ -147,6 +149,63 @@ def run(ctx):
                 ctx.violation("forced schedule [%s, %s, position '%s']: %s" % (park or "free-running", go, f, p),
                               {"schedule": park, "go": go, "fen": f, "outcome": {k: v for k, v in o.items() if k != "stderr"}, "stderr": o["stderr"][-800:]},
                               key="c06:sched:%s:%s:%s" % (park, f, p[:20]))
+    # ---- (2b) stop in the sessions where no search is running any more or none ever ran: after a bestmove that came from the BOOK,
+    #           after a search that ended by itself, twice in a row, before any go.  The reader must stay responsive (isready) and the
+    #           next go infinite + stop must still be answered. ----
+    import struct
+    from ucisession import Uci
+    rbin = engine_binary("plain")
+    scratch = os.path.join(BUILD, "c06_books")
+    os.makedirs(scratch, exist_ok=True)
+    bpath = os.path.join(scratch, "start.bin")
+    with open(bpath, "wb") as fh:
+        fh.write(struct.pack(">QHHI", 0x463b96181691fc9c, 796, 10, 0))        # start position -> e2e4
+
+    def idle_stop_session(shape):
+        u = Uci(rbin)
+        probs = []
+
+        def ready(what):
+            u.send("isready")
+            s_, t_ = u.wait_for(lambda x: x.strip() == "readyok", 10)
+            if s_ is None:
+                probs.append("isready not answered %s" % what)
+            return s_ is not None
+        pre = {"book answer": ["setoption name Polyglot Sample value best", "setoption name Polyglot Book value " + bpath, "position startpos", "go depth 3"],
+               "search ended by itself": ["position startpos", "go depth 2"],
+               "no go yet": ["position startpos"],
+               "two stops": ["position startpos", "go depth 2"]}[shape]
+        for c in pre:
+            u.send(c)
+            if c.startswith("go"):
+                s_, t_ = u.wait_for(lambda x: x.startswith("bestmove"), 30)
+                if s_ is None:
+                    probs.append("no bestmove for '%s'" % c)
+        u.send("stop")
+        if shape == "two stops":
+            u.send("stop")
+        ok_ = ready("after the stop")
+        if ok_:
+            u.send("position startpos moves e2e4 e7e5")
+            u.send("go infinite")
+            time.sleep(0.15)
+            ready("while the next search runs")
+            u.send("stop")
+            s_, t_ = u.wait_for(lambda x: x.startswith("bestmove"), 15)
+            if s_ is None:
+                probs.append("the next 'go infinite' + 'stop' got no bestmove")
+        rc_, err_ = u.close()
+        return probs, u.log[-12:]
+    shapes = ["book answer", "search ended by itself", "no go yet", "two stops"] * (2 if q else 10)
+    with concurrent.futures.ThreadPoolExecutor(max_workers=NPROC) as ex:
+        idle = list(ex.map(idle_stop_session, shapes))
+    shutil.rmtree(scratch, ignore_errors=True)
+    for shape, (probs, log_) in zip(shapes, idle):
+        for p in probs:
+            nviol += 1
+            if nviol <= 8:
+                ctx.violation("stop with no search running [%s]: %s" % (shape, p), {"shape": shape, "log": log_}, key="c06:idle:%s:%s" % (shape, p))
+    ctx.notes["idle_stop_sessions"] = len(shapes)
     # ---- (3) ThreadSanitizer build of the same harness: no report may involve the stop flag ----
     texe = harness("uci_driver", flavor="tsan")
     tsched = [(fens[0], "point:0", "go infinite"), (fens[0], "visit:200", "go infinite"), (fens[1], "", "go infinite"), (fens[1], "visit:3000", "go infinite")]
